@@ -59,6 +59,8 @@ impl Pool {
                             let mut connections = pool.connections.lock().unwrap();
                             let Some(connections) = connections.as_mut() else {
                                 // The transport was shut down
+                                #[cfg(lettre_verif)]
+                                crate::verif_hooks::pool_probe("maint_exit", "");
                                 return;
                             };
 
@@ -74,6 +76,15 @@ impl Pool {
                                 .map(|i| connections.remove(i))
                                 .collect::<Vec<_>>();
 
+                            #[cfg(lettre_verif)]
+                            crate::verif_hooks::pool_probe(
+                                "maint_scan",
+                                &dropped
+                                    .iter()
+                                    .map(|c| c.conn.server_info().name())
+                                    .collect::<Vec<_>>()
+                                    .join(","),
+                            );
                             (connections.len(), dropped)
                         };
 
@@ -91,22 +102,32 @@ impl Pool {
                                     break;
                                 }
                             };
+                            #[cfg(lettre_verif)]
+                            crate::verif_hooks::pool_probe("maint_connect_ok", conn.server_info().name());
 
                             let mut connections_guard = pool.connections.lock().unwrap();
                             let Some(connections) = connections_guard.as_mut() else {
                                 // The transport was shut down
+                                #[cfg(lettre_verif)]
+                                crate::verif_hooks::pool_probe("maint_drop_new", conn.server_info().name());
+                                #[cfg(lettre_verif)]
+                                crate::verif_hooks::pool_probe("maint_exit", "");
                                 return;
                             };
 
                             if connections.len() >= pool.config.max_size as usize {
                                 // The idle set is already full (connections were
                                 // returned in the meantime, or `min_idle > max_size`)
+                                #[cfg(lettre_verif)]
+                                crate::verif_hooks::pool_probe("maint_drop_new", conn.server_info().name());
                                 drop(connections_guard);
                                 let mut conn = conn;
                                 conn.abort();
                                 break;
                             }
 
+                            #[cfg(lettre_verif)]
+                            crate::verif_hooks::pool_probe("maint_push", conn.server_info().name());
                             connections.push(ParkedConnection::park(conn));
 
                             #[cfg(feature = "tracing")]
@@ -126,6 +147,8 @@ impl Pool {
 
                             for conn in dropped {
                                 let mut conn = conn.unpark();
+                                #[cfg(lettre_verif)]
+                                crate::verif_hooks::pool_probe("maint_abort", conn.server_info().name());
                                 conn.abort();
                             }
                         }
@@ -148,6 +171,14 @@ impl Pool {
     }
 
     pub(crate) fn shutdown(&self) {
+        #[cfg(lettre_verif)]
+        let connections = {
+            let mut guard = self.connections.lock().unwrap();
+            let connections = guard.take();
+            crate::verif_hooks::pool_probe("shutdown", "");
+            connections
+        };
+        #[cfg(not(lettre_verif))]
         let connections = { self.connections.lock().unwrap().take() };
         if let Some(connections) = connections {
             for conn in connections {
@@ -164,8 +195,17 @@ impl Pool {
                 let mut connections = self.connections.lock().unwrap();
                 let Some(connections) = connections.as_mut() else {
                     // The transport was shut down
+                    #[cfg(lettre_verif)]
+                    crate::verif_hooks::pool_probe("pop_shutdown", "");
                     return Err(error::transport_shutdown());
                 };
+                #[cfg(lettre_verif)]
+                crate::verif_hooks::pool_probe(
+                    "pop",
+                    connections
+                        .last()
+                        .map_or("", |c| c.conn.server_info().name()),
+                );
                 connections.pop()
             };
 
@@ -177,6 +217,8 @@ impl Pool {
                     if !conn.test_connected() {
                         #[cfg(feature = "tracing")]
                         tracing::debug!("dropping a broken connection");
+                        #[cfg(lettre_verif)]
+                        crate::verif_hooks::pool_probe("probe_fail", conn.server_info().name());
 
                         conn.abort();
                         continue;
@@ -184,6 +226,8 @@ impl Pool {
 
                     #[cfg(feature = "tracing")]
                     tracing::debug!("reusing a pooled connection");
+                    #[cfg(lettre_verif)]
+                    crate::verif_hooks::pool_probe("probe_ok", conn.server_info().name());
 
                     return Ok(PooledConnection::wrap(conn, Arc::clone(self)));
                 }
@@ -191,6 +235,14 @@ impl Pool {
                     #[cfg(feature = "tracing")]
                     tracing::debug!("creating a new connection");
 
+                    #[cfg(lettre_verif)]
+                    let conn = self.client.connection().map_err(|err| {
+                        crate::verif_hooks::pool_probe("connect_fail", "");
+                        err
+                    })?;
+                    #[cfg(lettre_verif)]
+                    crate::verif_hooks::pool_probe("connect_ok", conn.server_info().name());
+                    #[cfg(not(lettre_verif))]
                     let conn = self.client.connection()?;
                     return Ok(PooledConnection::wrap(conn, Arc::clone(self)));
                 }
@@ -202,6 +254,8 @@ impl Pool {
         if conn.has_broken() {
             #[cfg(feature = "tracing")]
             tracing::debug!("dropping a broken connection instead of recycling it");
+            #[cfg(lettre_verif)]
+            crate::verif_hooks::pool_probe("recycle_close", conn.server_info().name());
 
             conn.abort();
             drop(conn);
@@ -213,14 +267,20 @@ impl Pool {
 
             if let Some(connections) = connections_guard.as_mut() {
                 if connections.len() >= self.config.max_size as usize {
+                    #[cfg(lettre_verif)]
+                    crate::verif_hooks::pool_probe("recycle_close", conn.server_info().name());
                     drop(connections_guard);
                     conn.abort();
                 } else {
+                    #[cfg(lettre_verif)]
+                    crate::verif_hooks::pool_probe("recycle_park", conn.server_info().name());
                     let conn = ParkedConnection::park(conn);
                     connections.push(conn);
                 }
             } else {
                 // The pool has already been shut down
+                #[cfg(lettre_verif)]
+                crate::verif_hooks::pool_probe("recycle_close", conn.server_info().name());
                 drop(connections_guard);
                 conn.abort();
             }
